@@ -4,3 +4,4 @@ import GffProofs.Props.C09
 import GffProofs.Props.C08a
 import GffProofs.Props.C08b
 import GffProofs.Props.C07
+import GffProofs.Props.C02
